@@ -100,6 +100,12 @@ func ReceiveFeedback(item *models.Item) error {
 		panic("item is not a seed")
 	}
 
+	// A frozen or stopped reactor accepts nothing: check before touching any state,
+	// a select offering the send next to the Done cases would pick one at random.
+	if err := globalReactor.closed(); err != nil {
+		return err
+	}
+
 	// An item sent to the feedback channel should be present on the state table, if not present reactor should error out.
 	// The entry is only ever replaced, never created here: tracked seeds always equal the tokens in use.
 	previous, loaded := globalReactor.stateTable.Load(item.GetID())
@@ -125,6 +131,12 @@ func ReceiveFeedback(item *models.Item) error {
 func ReceiveInsert(item *models.Item) error {
 	if globalReactor == nil {
 		return ErrReactorNotInitialized
+	}
+
+	// A frozen or stopped reactor accepts nothing, even if a token is free
+	if err := globalReactor.closed(); err != nil {
+		logger.Debug("received item on closed reactor", "item", item.GetShortID(), "err", err.Error())
+		return err
 	}
 
 	select {
@@ -166,6 +178,17 @@ func MarkAsFinished(item *models.Item) error {
 		return nil
 	}
 	return ErrFinisehdItemNotFound
+}
+
+// closed returns the error to answer with once the reactor is stopped or frozen, nil otherwise.
+func (r *reactor) closed() error {
+	if r.ctx.Err() != nil {
+		return ErrReactorShuttingDown
+	}
+	if r.freezeCtx.Err() != nil {
+		return ErrReactorFrozen
+	}
+	return nil
 }
 
 func (r *reactor) run() {
